@@ -259,7 +259,7 @@ impl<'a> Engine<'a> {
             match s.model.get(class) {
                 None => self.h.viol("C07", "phantom-element", format!("iteration yields class {} which the model does not hold", class)),
                 Some(e) => {
-                    if F::TRACKED && (k.tag() != e.tag || k.id() != e.kid) {
+                    if F::IDENT && (k.tag() != e.tag || k.id() != e.kid) {
                         self.h.viol("C12", "stored-key-identity", format!("class {}: stored element is tag {} id {:#x}, model expects tag {} id {:#x}", class, k.tag(), k.id(), e.tag, e.kid));
                     }
                 }
@@ -298,7 +298,7 @@ impl<'a> Engine<'a> {
                 match (&want, &g) {
                     (None, None) => {}
                     (Some(e), Some((tag, kid, ka))) => {
-                        if F::TRACKED && (*tag != e.tag || *kid != e.kid) {
+                        if F::IDENT && (*tag != e.tag || *kid != e.kid) {
                             self.h.viol("C12", "get-identity", format!("Set::get(class {}) exposes tag {} id {:#x}; the stored element is tag {} id {:#x}", class, tag, kid, e.tag, e.kid));
                         }
                         if let Some(y) = seen.iter().find(|x| x.0 == class) {
@@ -366,7 +366,7 @@ impl<'a> Engine<'a> {
                         if oclass != class {
                             self.h.viol("C07", "replace-result", format!("replace(class {}) returned an element of class {}", class, oclass));
                         }
-                        if F::TRACKED && (otag != e.tag || oid != e.kid) {
+                        if F::IDENT && (otag != e.tag || oid != e.kid) {
                             self.h.viol("C12", "returned-key-identity", format!("replace returned element tag {} id {:#x}; the stored one was tag {} id {:#x}", otag, oid, e.tag, e.kid));
                         }
                         let me = s.model.get_mut(class).unwrap();
@@ -410,7 +410,7 @@ impl<'a> Engine<'a> {
         if r.0 != want.is_some() {
             self.h.viol("C07", "remove-presence", format!("{}(class {}) reported present={} but the model says {}", name, class, r.0, want.is_some()));
         }
-        if let (true, Some(e), Some((tag, kid))) = (F::TRACKED, want, r.1) {
+        if let (true, Some(e), Some((tag, kid))) = (F::IDENT, want, r.1) {
             if tag != e.tag || kid != e.kid {
                 self.h.viol("C12", "removed-key-identity", format!("take(class {}) returned tag {} id {:#x}; the stored element was tag {} id {:#x}", class, tag, kid, e.tag, e.kid));
             }
@@ -888,6 +888,46 @@ impl<'a> Engine<'a> {
         Some(Sut { fr: Frame::boxed(c), model, order: Vec::new() })
     }
 
+    fn op_clone_from<F: Fam, const N: usize>(&mut self, suts: &mut [Sut<F, N>], ix: usize) {
+        let (tl, sl) = (suts[ix].model.len(), suts[1 - ix].model.len());
+        self.step("clone_from", || format!("set copy#{}.clone_from(copy#{}) target holds {}, source holds {}", ix, 1 - ix, tl, sl));
+        self.cx.rep.evaluations += 1;
+        if !self.light { self.cx.rep.hit(&format!("clone_from:{}", if tl > sl { "target-longer" } else if tl == sl { "same-length" } else { "target-shorter" })); }
+        let (a, b) = suts.split_at_mut(1);
+        let (target, source) = if ix == 0 { (&mut a[0], &b[0]) } else { (&mut b[0], &a[0]) };
+        let cc0 = F::clone_counts();
+        ledger::log_start();
+        target.fr.get_mut().clone_from(source.fr.get());
+        let log = ledger::log_take();
+        let n = source.model.len() as u64;
+        if let (Some(x), Some(y)) = (cc0, F::clone_counts()) {
+            if y.0 - x.0 != n {
+                self.h.viol("C15", "clone-count", format!("Set::clone_from a source of {} elements called Clone::clone {} times", n, y.0 - x.0));
+            }
+        }
+        let mut model = Dict::new(N);
+        if F::TRACKED {
+            let kc: Vec<(u64, u64)> = log.iter().filter_map(|e| if let Ev::Clone { from, to, kind } = e { if *kind == KIND_KEY { Some((*from, *to)) } else { None } } else { None }).collect();
+            if kc.len() as u64 != n {
+                self.h.viol("C15", "clone-count", format!("Set::clone_from a source of {} elements made {} clones", n, kc.len()));
+            }
+            for e in &source.model.ents {
+                let k: Vec<&(u64, u64)> = kc.iter().filter(|x| x.0 == e.kid).collect();
+                if k.len() == 1 {
+                    model.push(Ent { class: e.class, tag: e.tag, kid: k[0].1, vid: 0, payload: 0 });
+                } else {
+                    self.h.viol("C15", "clone-count", format!("Set::clone_from: element of class {} cloned {} times", e.class, k.len()));
+                }
+            }
+        } else {
+            model = source.model.clone();
+        }
+        target.model = model;
+        if !(target.fr.get() == source.fr.get()) || !(source.fr.get() == target.fr.get()) {
+            self.h.viol("C15", "clone-not-equal", format!("after Set::clone_from the target (len {}) != the source (len {})", target.fr.get().len(), source.fr.get().len()));
+        }
+    }
+
     fn one_op<F: Fam, const N: usize>(&mut self, suts: &mut Vec<Sut<F, N>>) {
         let ix = if suts.len() > 1 { self.rng.usize_below(suts.len()) } else { 0 };
         let op = self.rng.weighted(&self.cfg.weights[..13]);
@@ -911,6 +951,8 @@ impl<'a> Engine<'a> {
                     if let Some(t) = t {
                         suts.push(t);
                     }
+                } else if self.rng.chance(1, 2) {
+                    self.op_clone_from(&mut suts[..], ix);
                 } else {
                     self.step("drop-copy", || format!("drop copy #{}", ix));
                     self.cx.rep.evaluations += 1;
@@ -986,7 +1028,7 @@ pub fn required_rows(prop: &str) -> Vec<&'static str> {
         "C09" => vec!["set-iter", "adaptor:"],
         "C10" => vec!["drain", "into_iter"],
         "C12" => vec!["insert", "replace", "take", "extend"],
-        "C15" => vec!["clone", "drop-copy"],
+        "C15" => vec!["clone", "drop-copy", "clone_from"],
         "C19" => vec!["fmt:set-debug", "fmt:set-alt-debug", "fmt:set-display"],
         _ => vec![],
     }
